@@ -457,6 +457,9 @@ func Run(c *core.Ctx, pool *gjs.Pool) {
 		}
 	}
 	p := tlaParams{Fams: []string{"dag", "vars", "inits", "link", "bad", "code"}, Bnd: bounds{MaxPk: 4, Slots: 5}, Codes: codes}
+	if v := os.Getenv("C10_FAMS"); v != "" { // development aid
+		p.Fams = strings.Split(v, ",")
+	}
 	recs, res, err := runModel(c, p, time.Duration(c.Pick(15, 40))*time.Minute)
 	if err != nil {
 		c.Infra(fmt.Errorf("InitScen: %v", err))
@@ -487,7 +490,8 @@ func Run(c *core.Ctx, pool *gjs.Pool) {
 	c.Set("model_programs_per_family", fams)
 	c.Set("model_programs_sensitive_to_file_order", sens)
 	c.Set("decoded_programs_ill_formed", illFormed)
-	c.Set("exhaustive", true)
+	c.Set("exhaustive", c.Thorough() && os.Getenv("C10_FAMS") == "")
+	c.Set("exhaustive_note", "TLC model-checks every program of the families dag, vars, inits, link, bad in both tiers; the thorough tier also builds and runs every one of them, the quick tier a VERIF_SEED sample of vars, inits and link; the code family is a VERIF_SEED sample of the full bounds in both tiers")
 
 	// 2. which programs are built (families completely in the thorough tier, a
 	// VERIF_SEED sample of the large ones in the quick tier)
@@ -542,6 +546,30 @@ func decide(c *core.Ctx, pool *gjs.Pool, recs []*Rec) {
 	outs := make([]*outcome, len(recs))
 	c.ParMap(len(recs), func(i int) { outs[i] = ck.execute(recs[i]) })
 	c.Phase("build_run")
+	// development aids that show the binding is not vacuous:
+	//   C10_CORRUPT=js    swaps two markers of one recorded JS trace  -> VIOLATION expected
+	//   C10_CORRUPT=spec  changes one predicted value of one program  -> exit 2: the allowed set and InitTrace disagree
+	switch os.Getenv("C10_CORRUPT") {
+	case "js":
+		for _, o := range outs {
+			if o.jsOK && len(o.jsEv) >= 2 && o.jsEv[0] != o.jsEv[1] {
+				o.jsEv[0], o.jsEv[1] = o.jsEv[1], o.jsEv[0]
+				o.both.JS.Lines[0], o.both.JS.Lines[1] = o.both.JS.Lines[1], o.both.JS.Lines[0]
+				break
+			}
+		}
+	case "spec":
+		for _, o := range outs {
+			if o.jsOK && !o.rec.Rejected {
+				for _, ts := range [][][]Event{o.rec.Asc, o.rec.Desc} {
+					for _, t := range ts {
+						t[len(t)-1].A++
+					}
+				}
+				break
+			}
+		}
+	}
 
 	// trace validation batch: every complete JS trace and every complete guard trace
 	var tscens []*Scen
@@ -618,6 +646,10 @@ func decide(c *core.Ctx, pool *gjs.Pool, recs []*Rec) {
 				c.Infra(fmt.Errorf("gopherjs build (infrastructure): %v", be))
 				return
 			}
+		}
+		if (o.both.BuildErr == nil && o.both.JS.End == "timeout") || (o.both.NativeErr == "" && !rec.Rejected && o.both.Native.End == "timeout") {
+			c.Infra(fmt.Errorf("scenario %d: a run timed out (js end=%s, native end=%s); not a verdict", rec.Sid, o.both.JS.End, o.both.Native.End))
+			return
 		}
 		// --- rejected forms: decided by the documented behaviour only
 		if rec.Rejected {
